@@ -16,6 +16,7 @@ Script operations (tuples):
     ("http", sym)            GET /e/<id> through web.create_app(storage); ("http", sym, "upper"): the id in upper-case hex
     ("query", [absfilter])   a REQ's stored answer through storage.subscribe(...)
     ("squery", [absfilter])  storage.run_single_query(filters)
+    ("fquery", [absfilter], k)     the stored answer while the engine fails at the k-th fetch of rows (SQL)
     ("wsquery", [absfilter], sid)  the REQ sent through web.start_client on one long-lived connection (sub ids re-used)
 """
 import asyncio
@@ -469,6 +470,46 @@ async def run_script(st, backend, uni, script, log_errors=None, keydump=None):
                 else:
                     res.append("?frame:" + str(fr)[:24])
             lines.append({"a": "Query", "fs": fs, "res": res, "_err": err, "_path": "ws", "_raw": False, "_skel": None, "_conc": None, "_sid": sid})
+        elif kind == "fquery":
+            # a REQ's stored answer during which the engine fails transiently: the k-th fetch of rows raises "database is locked"
+            # (SQL: aiosqlite's cursor; on LMDB the query runs undisturbed)
+            fs, k = op[1], op[2]
+            conc = [uni.conc_filter(f) for f in fs]
+            if backend == "sql":
+                import sqlite3
+
+                import aiosqlite
+
+                count = [0]
+                saved = {}
+
+                def faulty(name):
+                    orig = getattr(aiosqlite.Cursor, name)
+                    saved[name] = orig
+
+                    async def fn(self_, *a, **kw):
+                        count[0] += 1
+                        if count[0] == k:
+                            raise sqlite3.OperationalError("database is locked")
+                        return await orig(self_, *a, **kw)
+                    return fn
+                for name in ("fetchmany", "fetchone", "fetchall"):
+                    setattr(aiosqlite.Cursor, name, faulty(name))
+                try:
+                    evs, err = await stored_answer(st, _clone(conc))
+                finally:
+                    for name, orig in saved.items():
+                        setattr(aiosqlite.Cursor, name, orig)
+            else:
+                evs, err = await stored_answer(st, _clone(conc))
+            res = []
+            for e in evs:
+                s_ = uni.sym_event(e)
+                res.append(s_ if s_ is not None else "?" + str(getattr(e, "id", e))[:16])
+            ln = {"a": "Query", "fs": fs, "res": res, "_err": err, "_path": "fquery", "_raw": False, "_skel": None, "_conc": None}
+            if backend == "sql":
+                ln["fault"] = k
+            lines.append(ln)
         elif kind in ("query", "squery", "rawquery"):
             fs = op[1]
             if kind == "rawquery":
